@@ -382,6 +382,14 @@ def check_wipe(ctx):
                 cases.append(("resume-%s %s %x %x %s %s" % (alg, hx(rand_bytes(ctx, nst)), c0, c1, hx(rand_bytes(ctx, 64)),
                                                            " ".join(hx(p) for p in parts))).rstrip())
                 ctx.count("wipe.%s.hand_set_context" % alg)
+            for n in (0, 1, 55):
+                # bit count one block below 2^32 (2^64 for SHA-256): the low count word is 0 after the padding
+                lo, hi = 0xfffffe00, r.getrandbits(32)
+                c0, c1 = {"sha256": ((1 << 64) - 512, 0), "sha1": (hi, lo), "md5": (lo, hi)}[alg]
+                nst = {"sha256": 32, "sha1": 20, "md5": 16}[alg]
+                cases.append(("resume-%s %s %x %x %s %s" % (alg, hx(rand_bytes(ctx, nst)), c0, c1, hx(rand_bytes(ctx, 64)),
+                                                           hx(rand_bytes(ctx, n)))).rstrip())
+                ctx.count("wipe.%s.count_word_zero_after_pad" % alg)
         cases = corpus(("sha", "md5", "hmac-")) + spread(ctx, cases)
         cases = [c for c in cases if len(c.split()) >= 2 and (c.split()[1] == "s" or c.startswith("resume-"))]
     # the repository's own optimisation level decides whether a wipe survives: plain -O2 build too
@@ -397,7 +405,14 @@ def check_wipe(ctx):
         if name == "asan":
             vlib.sanitizer_reports(ctx, sub, st)
         # impl flag != "z": the property fails on this input; impl flag != model flag: correspondence broken
-        vlib.tri_compare(ctx, sub, cases, only_flag(impl), mflag, want)
+        iflag = only_flag(impl)
+        if len(iflag) != len(cases) or len(mflag) != len(cases):
+            vlib.tri_compare(ctx, sub, cases, iflag, mflag, want)
+            continue
+        # failing inputs first (the report is capped), then the cases where only the model disagrees
+        for sel in ([i for i, f in enumerate(iflag) if f != "z"], [i for i, f in enumerate(iflag) if f == "z"]):
+            vlib.tri_compare(ctx, sub, [cases[i] for i in sel], [iflag[i] for i in sel], [mflag[i] for i in sel],
+                             [want[i] for i in sel])
     ctx.record(sub, cases, set(c[:200] for c in cases),
                "context object filled with 0xAA, Init (or every field set by hand), Update*, Final, then every byte of the "
                "real struct inspected (ASan build and plain -O2 build): all zero; same flag from the model, whose Final "
